@@ -36,7 +36,9 @@ _reg("C01", "xsim.manager.props", "C01", "exploration", {"quick": 6400, "thoroug
      "one update that triggered >= 1 task")
 _reg("C02", "xsim.manager.props", "C02", "exploration", {"quick": 9600, "thorough": 1500000}, {"quick": 200, "thorough": 1000},
      ("pure", "compiled"), COMPONENTS_MANAGER,
-     "one case = seeded world + history (35 % with two frozen windows); every propagating op's container-write/action trace is attributed to tasks; "
+     "one case = seeded world + history (35 % with two frozen windows; 30 % with assignments that fail half-way and are repeated); every "
+     "propagating op's container-write/action trace is attributed to tasks; dedicated scenarios: cyclic graphs (10 %), deep chains, "
+     "colliding hashes, assignment through a reference-valued subscript (1 %); "
      "distinct = distinct case digest; non-trivial = at least one update that triggered >= 1 task")
 _reg("C03", "xsim.manager.props", "C03", "exploration", {"quick": 6400, "thorough": 400000}, {"quick": 200, "thorough": 800},
      ("pure", "compiled"), COMPONENTS_MANAGER,
